@@ -151,8 +151,8 @@ impl MultiPeerBackend for ReqSocketBackend {
         self.round_robin.push(peer_id.clone());
     }
 
-    fn peer_disconnected(&self, peer_id: &PeerIdentity) {
-        self.peers.remove_sync(peer_id);
+    async fn peer_disconnected(&self, peer_id: &PeerIdentity) {
+        self.peers.remove_async(peer_id).await;
     }
 }
 
